@@ -58,12 +58,16 @@ impl Ctl {
             self.fail_at.store(u64::MAX, Ordering::Release);
             return Err(self.injected("transient error", path));
         }
-        self.log.lock().unwrap().push((op, path.to_string()));
+        let _ = op;
         if n == self.unknown_at.load(Ordering::Acquire) {
             self.unknown_at.store(u64::MAX, Ordering::Release);
             return Ok(true);
         }
         Ok(false)
+    }
+    /// a mutation reached the backend and was applied there
+    fn landed(&self, op: char, path: &Path) {
+        self.log.lock().unwrap().push((op, path.to_string()));
     }
     /// power failure after `n` more mutations (counted from now)
     pub fn crash_after(&self, n: u64) {
@@ -141,11 +145,15 @@ impl std::fmt::Display for VStore {
 #[async_trait]
 impl ObjectStore for VStore {
     async fn put_opts(&self, location: &Path, payload: PutPayload, opts: PutOptions) -> Result<PutResult> {
-        if self.ctl.intercept(true, 'P', location)? {
-            let _ = self.inner.put_opts(location, payload, opts).await;
+        let unknown = self.ctl.intercept(true, 'P', location)?;
+        let r = self.inner.put_opts(location, payload, opts).await;
+        if r.is_ok() {
+            self.ctl.landed('P', location);
+        }
+        if unknown {
             return Err(self.ctl.injected("unknown outcome", location));
         }
-        self.inner.put_opts(location, payload, opts).await
+        r
     }
 
     async fn put_multipart_opts(&self, location: &Path, opts: PutMultipartOptions) -> Result<Box<dyn MultipartUpload>> {
@@ -153,6 +161,7 @@ impl ObjectStore for VStore {
         // applied to multipart uploads (none occurs in the C01 workloads)
         self.ctl.intercept(true, 'M', location)?;
         let inner = self.inner.put_multipart_opts(location, opts).await?;
+        self.ctl.landed('M', location);
         Ok(Box::new(VUploader { location: location.clone(), ctl: self.ctl.clone(), inner }))
     }
 
@@ -177,6 +186,9 @@ impl ObjectStore for VStore {
                     let location = location?;
                     let unknown = ctl.intercept(true, 'D', &location)?;
                     let r = inner.delete(&location).await;
+                    if r.is_ok() {
+                        ctl.landed('D', &location);
+                    }
                     if unknown {
                         return Err(ctl.injected("unknown outcome", &location));
                     }
@@ -206,19 +218,27 @@ impl ObjectStore for VStore {
     }
 
     async fn copy_opts(&self, from: &Path, to: &Path, options: CopyOptions) -> Result<()> {
-        if self.ctl.intercept(true, 'C', from)? {
-            let _ = self.inner.copy_opts(from, to, options).await;
+        let unknown = self.ctl.intercept(true, 'C', from)?;
+        let r = self.inner.copy_opts(from, to, options).await;
+        if r.is_ok() {
+            self.ctl.landed('C', from);
+        }
+        if unknown {
             return Err(self.ctl.injected("unknown outcome", from));
         }
-        self.inner.copy_opts(from, to, options).await
+        r
     }
 
     async fn rename_opts(&self, from: &Path, to: &Path, options: RenameOptions) -> Result<()> {
-        if self.ctl.intercept(true, 'R', from)? {
-            let _ = self.inner.rename_opts(from, to, options).await;
+        let unknown = self.ctl.intercept(true, 'R', from)?;
+        let r = self.inner.rename_opts(from, to, options).await;
+        if r.is_ok() {
+            self.ctl.landed('R', from);
+        }
+        if unknown {
             return Err(self.ctl.injected("unknown outcome", from));
         }
-        self.inner.rename_opts(from, to, options).await
+        r
     }
 }
 
